@@ -8,7 +8,8 @@ open Pyemv Pyemv.Gen
 theorem kd_derive_icc_mk_a (k : Bytes) (pan : StrOrBytes) (psn : Option StrOrBytes) :
     Gen.kd.derive_icc_mk_a k pan psn = deriveIccMkA k pan psn := by
   unfold Gen.kd.derive_icc_mk_a deriveIccMkA keyFromData psnTextR
-  simp only [tools_xor, rep_flatten, tools_ecb, tools_adjust, bind, Except.bind, pure, Except.pure]
+  try simp only [bind_pure]      -- `do let v ← e; pure v` is `e` (single-exit rewrites)
+  simp only [tools_xor, rep_flatten, tools_ecb, tools_adjust, bind, Except.bind, pure, Except.pure, except_match_eta]
   repeat (first | rfl | split)
   all_goals first | (simp_all; done) | slice_forms
 
